@@ -314,8 +314,21 @@ func (a *Analysis) checkGate(gs gateSpec, res *GateResult) *GateInfo {
 		inSpec := reach.IntersectFinite(gs.spec)
 		outSpec := reach.MinusFinite(gs.spec)
 		matchesSent, desc := a.matches(errv, sent)
+		// `return otherEntryPoint(...)`: the outcome is the callee's; for the set computation the
+		// exit counts as a success exit (the callee's own gate and the size-coherence rules G4
+		// decide whether it really succeeds for the sizes that reach it)
+		delegated := false
+		if ex, ok := errv.(*ssa.Extract); ok {
+			if c, ok := ex.Tuple.(*ssa.Call); ok {
+				if callee := c.Call.StaticCallee(); callee != nil && callee.Pkg != nil && a.P.InModule(callee.Pkg) && callee != gs.fn {
+					if ex0, ok := returnedValue(ret, 0).(*ssa.Extract); !gs.strResult || ok && ex0.Tuple == ex.Tuple {
+						delegated = true
+					}
+				}
+			}
+		}
 		switch {
-		case isNil:
+		case isNil || delegated && !matchesSent:
 			success = success.Union(reach)
 			if !outSpec.Empty() {
 				r.Bad(gs.rule, key, rp, "", "success exit of %s is reachable with %s ∈ %v, outside the BIP39 set %v (e.g. %v)", fk, gs.what, outSpec, specSet, outSpec.Sample(4))
